@@ -21,6 +21,7 @@ RULE = (
     "exception; RefEval as third voice. Non-trivial: >= 2 combinations; distinct = (inner shape, mode, lengths, "
     "clone, failure pattern, form)."
     ' Also: broadcast tuples holding a list under clone; raise mode with several failing items in flight and the later one finishing first (limits None/2/3, last-first and random completion orders, runner.map and mapping node).'
+    ' Also: the mapping node renamed AFTER map_over, including a swap or shift in one with_inputs() call in which a new name equals another old name.'
 )
 ASSUMPTIONS = ["zip with unequal lengths raises by contract and is not generated", "the order in which items execute is free"]
 DECIDING = ["map_calls", "items_compared"]
